@@ -86,9 +86,15 @@ func newEnv(seed int64, sw bool, flow string) (*env, error) {
 	if err != nil {
 		return nil, err
 	}
+	// the flows run under a context that a fault of kind "ctxdone" really cancels
+	tc := world.NewToggleCtx()
+	cancel := tc.Cancel
+	w.Ctx = tc
+	w.Rec.OnCtxDone = cancel
 	e := &env{w: w, rec: w.Rec, store: w.Store, reqKey: "k1"}
 	nodeInner, _ := inmem.New(w.Ctx)
 	e.nodeRec = world.NewRecStorage(nodeInner, false)
+	e.nodeRec.OnCtxDone = cancel
 	e.node = e.nodeRec.AsStorage()
 	if flow != "rotateRoots0" {
 		if _, err := w.InitRoots(); err != nil {
@@ -446,6 +452,9 @@ func Run(bh Behaviour, seed int64) ([]Line, error) {
 			}
 			out := call()
 			e.rec.FailAt = 0
+			if tc, ok := e.w.Ctx.(*world.ToggleCtx); ok {
+				tc.Revive() // the harness' own inspections run under a live context again
+			}
 			for _, o := range e.rec.Since(mark) {
 				if len(o.Err) > 9 && o.Err[:9] == "injected:" {
 					ln.Obs.FailedOp = o.Op + ":" + o.Type
